@@ -780,6 +780,33 @@ func (c *Cluster) storm(ctx context.Context, sc *DkgScenario, log *Log) {
 		}(w)
 	}
 	wg.Wait()
+	// ---- rounds of SAME-NAME prepares: eight genuine peers' prepare messages for one fresh name, released at the same moment; a
+	// generation is active from the first accepted one on, so exactly one may be accepted ("preparing again while one is active is
+	// refused and leaves it intact"); then the name is aborted and the next round uses another
+	if in.Crashed == "" {
+		for round := 0; round < 25; round++ {
+			name := fmt.Sprintf("DW/same%d", round)
+			var accepted int64
+			var rw sync.WaitGroup
+			startCh := make(chan struct{})
+			for w := 0; w < 8; w++ {
+				rw.Add(1)
+				go func(w int) {
+					defer rw.Done()
+					defer guard()
+					cctx := callerCtx(ctx, peerName(peersOf[w%len(peersOf)]))
+					<-startCh
+					if _, err := in.RecvH.Prepare(cctx, &pb.PrepareRequest{Account: name, Passphrase: []byte("pass"), Threshold: 2, Participants: parts}); err == nil {
+						atomic.AddInt64(&accepted, 1)
+					}
+				}(w)
+			}
+			close(startCh)
+			rw.Wait()
+			log.Emit(Ev{"ev": "ConcPrepare", "account": name, "accepted": atomic.LoadInt64(&accepted), "of": 8})
+			_, _ = in.RecvH.Abort(callerCtx(ctx, peerName(peersOf[0])), &pb.AbortRequest{Account: name})
+		}
+	}
 	log.Emit(Ev{"ev": "StormEnd", "peer_calls": atomic.LoadInt64(&peerCalls), "peer_ok": atomic.LoadInt64(&peerOK), "non_peer_calls": atomic.LoadInt64(&intruderCalls), "crashed": in.Crashed != ""})
 }
 
